@@ -40,7 +40,7 @@ def make_plan(pid, tier, seed, ctx):
     for (oa, ob) in opts:
         mn = '%s_%s%s' % (pid.lower(), oa[0], ob[0])
         modules[mn] = [('harness/C15_api.cpp', 'coro20', (MODEL_INC, '-DOPT_A=' + oa, '-DOPT_B=' + ob))] + [(l, 'coro20', (MODEL_INC,)) for l in LIB]
-        mopts[mn] = {'nthreads': 2, 'heap': 2048, 'stack': 4096, 'preempt': True}
+        mopts[mn] = {'nthreads': 2, 'heap': 2048, 'stack': 4096, 'preempt': True, 'hb': True}
         units = ['c15_start_%s_%d' % (f, i) for f in forms for i in range(3)] + tries
         hold_units = ['c15_release', 'c15_start_w_hold_3', 'c15_start_r_hold_3', 'c15_start_m_hold_3']
         head = core.decls(units + hold_units) + 'void c15_prologue(uint32_t);\nvoid c15_epilogue(uint32_t, uint32_t);\n' + core.unit_selector(units + hold_units)
